@@ -73,6 +73,12 @@ def run(ctx, replay=None):
                 corr_bad += 1
                 if corr_bad <= 3:
                     ctx.broken.append(('correspondence:' + name, '%s %s: impl=%s model=%s' % (name, hexs(x), e_impl[j], e_mod[j])))
+        # an encoder reads exactly `size` bytes of its input (exact-size buffer before an inaccessible page) and always returns
+        for j, nm in enumerate(['urlenc', 'b64enc', 'hexenc']):
+            if e_impl[j] in ('CRASH', 'TIMEOUT'):
+                ctx.report('impl-vs-spec', {'op': nm, 'observed': e_impl[j].lower()},
+                           '%s: %s on a valid input in an exact-size buffer (reads past the given size, or does not return)' % (nm, e_impl[j]),
+                           {'op': nm + ' ' + hexs(x), 'actual': e_impl[j]})
         # property monitor: formats
         if e_impl[1] != spec[0]:
             ctx.report('impl-vs-spec', {'op': 'b64enc', 'observed': 'not-rfc4648'}, 'qbase64_encode output is not RFC 4648',
@@ -158,6 +164,19 @@ def run(ctx, replay=None):
         q = bytes([sep]).join(enc(n) + bytes([eq]) + enc(v) for n, v in pairs)
         qops.append('query %d %d %s' % (eq, sep, hexs(q)))
         qexp.append('%d %s' % (len(pairs), ' '.join(hexs(n) + '=' + hexs(v) for n, v in pairs)))
+    # queries of exact total lengths around the sizes at which a fixed or growing buffer would be too small
+    for total in [n + d for n in (64, 128, 255, 256, 512, 1024, 4096) for d in (-2, -1, 0, 1, 2)]:
+        for tail in (b'v', b'%e9', b'+'):
+            pairs = [(b'a', b'1'), (b'bb', b'x y')]
+            head = bytes([38]).join(enc(n) + b'=' + enc(v) for n, v in pairs) + b'&k='
+            fill = total - len(head) - len(tail)
+            if fill < 0:
+                continue
+            q = head + b'z' * fill + tail
+            val = b'z' * fill + (b'v' if tail == b'v' else b'\xe9' if tail == b'%e9' else b' ')
+            qops.append('query 61 38 ' + hexs(q))
+            allp = pairs + [(b'k', val)]
+            qexp.append('%d %s' % (len(allp), ' '.join(hexs(n) + '=' + hexs(v) for n, v in allp)))
     # malformed queries (correspondence only)
     nmal = len(qops)
     for i in range(nq):
